@@ -4,6 +4,7 @@ Lemmas/LayoutFix.lean — `fixOne` split into its steps; frame property (`fixOne
 -/
 import CoCoVerif.Lemmas.LayoutTerm
 import CoCoVerif.Lemmas.AddrOther
+import CoCoVerif.Lemmas.EvalLists
 
 namespace CoCo.Asm
 open CoCo
@@ -284,6 +285,14 @@ theorem fixAll_ok2 {ss : List Stmt} {i : Nat} {l l' : List Stmt} (h : fixAll ss 
   obtain ⟨s', h1, h2⟩ := hp j s hs
   obtain ⟨s1, h3, h4⟩ := fixFit_ok.1 h2
   exact ⟨s1, s', h1, h3, h4⟩
+
+/-- (batch 8) `fixAll`, then the lists: no `diverged` -/
+theorem fixAllL_not_diverged (t : SymTab) (l : List Stmt) : fixAllL t l ≠ .diverged := by
+  unfold fixAllL
+  cases h : fixAll l 0 l with
+  | diverged => exact absurd h (fixAll_not_diverged _ _ _)
+  | ok x => exact evalLists_not_diverged _ _ _
+  | _ => simp
 end CoCo.Asm
 
 namespace CoCo.Asm
@@ -385,8 +394,8 @@ theorem assemble_not_diverged (fs : Files) (lines : List Str) : assemble fs line
               | diverged => exact absurd h3 (assignAddrs_not_diverged _ _)
               | ok ss4 =>
                 dsimp only
-                cases h4 : fixAll ss4 0 ss4 with
-                | diverged => exact absurd h4 (fixAll_not_diverged _ _ _)
+                cases h4 : fixAllL t ss4 with
+                | diverged => exact absurd h4 (fixAllL_not_diverged _ _)
                 | ok ss5 =>
                   dsimp only
                   cases h6 : evalSyms ss5 t t with
